@@ -9,7 +9,21 @@
    Point is the FIXED pcommon.Point.UnmarshalCBOR (fixes/C04-point-arity.patch);
    dec_point_pinned is the pinned code.  NO proofs in this file. *)
 From V Require Import Lib.Base Lib.Cbor Lib.CborParse.
+From V Require C22.Model.
 Local Open Scope N_scope.
+
+(* hand-written post-processing of a decoded value (third round): the part of
+   an UnmarshalCBOR / MarshalCBOR pair that is not the library's reflection *)
+Inductive post :=
+| PReplyNextTx                 (* localtxmonitor.MsgReplyNextTx: whole message through []any *)
+| PNtC                         (* chainsync.MsgRollForwardNtC: the wrapped block inside the tag-24 content *)
+| PWHeader                     (* chainsync.WrappedHeader *)
+| PLens (cs : list (nat * N))  (* Validate(): byte fields of a struct with fixed lengths (Leios votes) *)
+| PPartition                   (* leiosnotify.MsgVotesOffer: votes sorted into three lists by shape *)
+| PRejectReason                (* pcommon.RejectReasonData: [type, message?] through []any *)
+| PQuery                       (* localstatequery.QueryWrapper *)
+| PDmqPayload                  (* pcommon.DmqMessagePayload: current / legacy shape -> one struct *)
+| PDmq.                        (* pcommon.DmqMessage *)
 
 Inductive schema :=
 | SUInt (bits : N)            (* uint8/16/32/64, uint *)
@@ -27,7 +41,10 @@ Inductive schema :=
 | SAny                        (* any / interface{}: every item, content not observed *)
 | SMapU (indef : bool) (bits : N) (s : schema) (* map[uintN]T; indef: written as an indefinite-length map by a hand encoder *)
 | SPeer                       (* peersharing.PeerAddress, custom codec *)
-| SOpaque.                    (* custom codec not modelled here *)
+| SOpaque                     (* custom codec not modelled here *)
+| SPost (p : post) (s : schema)     (* decode by s, then the hand-written post-processing p (encode: p first) *)
+| SByLen (n : N) (a b : schema)     (* the decoder peeks at the element count: an array of n elements is an a, every other array a b *)
+| SAlt (a b : schema).              (* decoder: try a, on error b; the encoder emits a only *)
 
 Inductive value :=
 | VUInt (n : N) | VBool (b : bool) | VBytes (bs : bytes) | VText (bs : bytes) | VRaw (i : item)
@@ -46,7 +63,69 @@ Fixpoint sorted_keys {A} (w : N) (kvs : list (N * A)) : bool :=
   | (k, _) :: r => (k <? 2 ^ w) && match r with (k', _) :: _ => k <? k' | [] => true end && sorted_keys w r
   end.
 
+(* ---- hand-written encoders (third round) ---- *)
+Definition muint := C22.Model.muint.     (* shortest-form unsigned *)
+Definition mbstr := C22.Model.mbstr.     (* definite byte string, shortest length form *)
+Definition tag24 := C22.Model.tag24.     (* d8 18 *)
+Definition mtstr (bs : bytes) : item := TStr (min_form (len bs)) bs.
+Definition arr1 (a : item) : item := Arr (Some Fimm) [a].
+Definition arr2 := C22.Model.arr2.
+Definition all_bytes_b (bs : bytes) : bool := forallb (fun b => b <? 256) bs.
+Definition k_arity (n : nat) (v : value) : bool := match v with VStruct l => Nat.eqb (length l) n | _ => false end.
+(* Validate(): the byte fields at the given positions have the given lengths *)
+Definition lens_ok (cs : list (nat * N)) (v : value) : bool :=
+  match v with
+  | VStruct vs => forallb (fun c => match nth_error vs (fst c) with Some (VBytes bs) => len bs =? snd c | _ => false end) cs
+  | _ => false
+  end.
+(* MsgVotesOffer keeps vote ids (2 elements), full votes (4) and prototype
+   votes (3) in three lists; observed in that order *)
+Definition partition3 (vs : list value) : list value :=
+  filter (k_arity 2) vs ++ filter (k_arity 4) vs ++ filter (k_arity 3) vs.
+Definition homogeneous (vs : list value) : bool :=
+  forallb (k_arity 2) vs || forallb (k_arity 4) vs || forallb (k_arity 3) vs.
+
+(* the MarshalCBOR side of each hand-written codec: from the observed fields
+   to the value the underlying schema encodes; None = a field combination no
+   constructor produces / the encoder rejects *)
+Definition post_enc (p : post) (v : value) : option value :=
+  match p, v with
+  (* MsgReplyNextTx.MarshalCBOR: [type] when Tx == nil, else [type, [era, 24(tx)]] *)
+  | PReplyNextTx, VStruct [VUInt t; VUInt e; VList []] =>
+      if (t <? 256) && (e =? 0) then Some (VRaw (arr1 (muint t))) else None
+  | PReplyNextTx, VStruct [VUInt t; VUInt e; VList [VBytes bs]] =>
+      if (t <? 256) && (e <? 256) then Some (VRaw (arr2 (muint t) (arr2 (muint e) (tag24 (mbstr bs))))) else None
+  (* NewMsgRollForwardNtC: WrappedBlock = Tag{24, cbor.Encode([blockType, RawMessage(block)])};
+     fxamacker refuses a RawMessage that is not exactly one well-formed item *)
+  | PNtC, VStruct [VUInt t; VTagged n (VBytes c); tip; VUInt bt; VBytes braw] =>
+      if (n =? 24) && (bt <? 2 ^ 64) && all_bytes_b braw && C22.Model.one_item braw
+         && bytes_eqb c (C22.Model.wrapped_block_bytes bt braw)
+      then Some (VStruct [VUInt t; VTagged n (VBytes c); tip]) else None
+  (* WrappedHeader.MarshalCBOR: [era, 24(header)], Byron: [0, [[type, size], 24(header)]] *)
+  | PWHeader, VStruct [VUInt era; VUInt ty; VUInt sz; VBytes h] =>
+      if era =? 0 then
+        if (ty <? 2 ^ 64) && (sz <? 2 ^ 64) then
+          Some (VStruct [VUInt era; VRaw (arr2 (arr2 (muint ty) (muint sz)) (tag24 (mbstr h)))]) else None
+      else if (ty =? 0) && (sz =? 0) then Some (VStruct [VUInt era; VRaw (tag24 (mbstr h))]) else None
+  | PLens cs, _ => if lens_ok cs v then Some v else None
+  (* MsgVotesOffer.MarshalCBOR emits ONE of the three lists *)
+  | PPartition, VStruct [t; VList vs] => if homogeneous vs then Some v else None
+  (* RejectReasonData.MarshalCBOR: always [type, message] *)
+  | PRejectReason, VStruct [VUInt t; VText m] =>
+      if t <=? 3 then Some (VRaw (arr2 (muint t) (mtstr m))) else None
+  (* DmqMessagePayload.MarshalCBOR: the current shape [body, kesPeriod, expiresAt];
+     the legacy MessageID alias is not written *)
+  | PDmqPayload, VStruct [VBytes []; b; k; e] => Some (VStruct [b; k; e])
+  (* DmqMessage.MarshalCBOR: the current shape with msgID = ID(); an empty id is
+     recomputed (Blake2b-256 of the payload: outside this model, None) *)
+  | PDmq, VStruct [VBytes id; VStruct [VBytes pid; b; k; e]; sg; oc; ck] =>
+      if bytes_eqb id pid && negb (len id =? 0) then Some (VStruct [VBytes id; VStruct [VBytes []; b; k; e]; sg; oc; ck]) else None
+  | _, _ => None
+  end.
+
 (* ---- cbor.Encode: shortest heads, definite lengths ---- *)
+Definition arr_len_is (n : N) (i : item) : bool := match i with Arr _ xs => len xs =? n | _ => false end.
+Definition arr_len_isnt (n : N) (i : item) : bool := match i with Arr _ xs => negb (len xs =? n) | _ => false end.
 Fixpoint enc_s (s : schema) (v : value) {struct s} : option item :=
   match s, v with
   | SUInt w, VUInt n => if n <? 2 ^ w then Some (UInt (min_form n) n) else None
@@ -98,6 +177,13 @@ Fixpoint enc_s (s : schema) (v : value) {struct s} : option item :=
   | SPoint, VOrigin => Some (Arr (Some Fimm) [])
   | SPoint, VPoint sl h =>
       if sl <? 2 ^ 64 then Some (Arr (Some Fimm) [UInt (min_form sl) sl; BStr (min_form (len h)) h]) else None
+  | SPost p s', _ => match post_enc p v with Some v' => enc_s s' v' | None => None end
+  | SByLen n a b, _ =>
+      match enc_s a v with
+      | Some i => if arr_len_is n i then Some i else None
+      | None => match enc_s b v with Some i => if arr_len_isnt n i then Some i else None | None => None end
+      end
+  | SAlt a b, _ => enc_s a v
   | _, _ => None
   end.
 
@@ -110,6 +196,20 @@ Fixpoint strip (i : item) : item :=
 Definition is_nil (i : item) : bool :=
   match i with Simple _ v => (v =? 22) || (v =? 23) | _ => false end.
 
+(* the Go zero value of a hand-coded type as the harness renders it (seen only
+   when an enclosing struct is null) *)
+Definition post_zero (p : post) (z : value) : value :=
+  match p with
+  | PReplyNextTx => VStruct [VUInt 0; VUInt 0; VList []]
+  | PWHeader => VStruct [VUInt 0; VUInt 0; VUInt 0; VBytes []]
+  | PRejectReason => VStruct [VUInt 0; VText []]
+  | PDmqPayload => VStruct [VBytes []; VBytes []; VUInt 0; VUInt 0]
+  | PDmq => VStruct [VBytes []; VStruct [VBytes []; VBytes []; VUInt 0; VUInt 0]; VBytes [];
+                     VStruct [VBytes []; VUInt 0; VUInt 0; VBytes []]; VBytes []]
+  | PNtC => match z with VStruct l => VStruct (l ++ [VUInt 0; VBytes []]) | _ => z end
+  | _ => z
+  end.
+
 Fixpoint zero (s : schema) : value :=
   match s with
   | SUInt _ => VUInt 0 | SBool => VBool false | SBytes => VBytes [] | SText => VText []
@@ -117,6 +217,7 @@ Fixpoint zero (s : schema) : value :=
   | SPoint => VOrigin | SOpaque => VOrigin
   | SListI _ => VList [] | STagBytes => VBytes [] | SBytesN n => VBytes (repeat 0 (N.to_nat n))
   | STagAny => VTagged 0 VAny | SAny => VAny | SMapU _ _ _ => VMap [] | SPeer => VOrigin
+  | SPost p s' => post_zero p (zero s') | SByLen _ a _ => zero a | SAlt a _ => zero a
   end.
 
 Fixpoint be_val (bs : bytes) (acc : N) : N :=
@@ -214,6 +315,104 @@ Definition dec_point_pinned (j : item) : option value :=
   | Arr _ [_; _] => None
   | Arr _ _ => Some VOrigin
   | _ => None
+  end.
+
+(* ---- the UnmarshalCBOR side of the hand-written codecs ---- *)
+(* the content of tag 24 as the registered type cbor.WrappedCbor ([]byte):
+   filled by reflection (null leaves nil, an array of small integers is taken
+   byte by byte), but a further tag around the content is an error *)
+Definition dec_bytes_r (x : item) : option bytes :=
+  if is_nil x then Some [] else match x with Arr _ xs => dec_u8s xs | _ => dec_bytes x end.
+(* a cbor.Tag destination whose Content (decoded into `any`) must be []byte *)
+Definition dec_tag_bytes (x : item) : option bytes :=
+  match x with Tag _ t c => if builtin_ok t c then dec_bytes c else None | _ => None end.
+(* chainsync.WrappedBlock by reflection: [uint, RawMessage] *)
+Definition dec_wblock (inner : item) : option (N * bytes) :=
+  let j := strip inner in
+  if is_nil j then Some (0, []) else
+  match j with
+  | Arr _ [a; b] => match dec_u 64 a with Some bt => Some (bt, enc b) | None => None end
+  | _ => None
+  end.
+(* wrappedHeaderByron.Metadata by reflection: [uint, uint] *)
+Definition dec_byron_meta (m : item) : option (N * N) :=
+  let j := strip m in
+  if is_nil j then Some (0, 0) else
+  match j with
+  | Arr _ [a; b] => match dec_u 64 a, dec_u 64 b with Some x, Some y => Some (x, y) | _, _ => None end
+  | _ => None
+  end.
+
+Definition post_dec (p : post) (v : value) : option value :=
+  match p, v with
+  (* MsgReplyNextTx.UnmarshalCBOR (fixed, 3f33b77): []any of 1 or 2 elements;
+     elements decoded into `any`: only a plain unsigned integer is uint64, only
+     an untagged array is []any, only tag 24 is cbor.WrappedCbor (a []byte
+     filled by reflection: null leaves it nil, an array of small integers is
+     taken byte by byte) *)
+  | PReplyNextTx, VRaw i =>
+      match strip i with
+      | Arr _ [UInt _ t] => if t <? 256 then Some (VStruct [VUInt t; VUInt 0; VList []]) else None
+      | Arr _ [UInt _ t; Arr _ [UInt _ e; Tag _ tg c]] =>
+          if (t <? 256) && (e <? 256) && (tg =? 24) then
+            match dec_bytes_r c with
+            | Some bs => Some (VStruct [VUInt t; VUInt e; if is_nil c then VList [] else VList [VBytes bs]])
+            | None => None
+            end
+          else None
+      | _ => None
+      end
+  (* MsgRollForwardNtC.UnmarshalCBOR: Content.([]byte), then cbor.Decode(content, &WrappedBlock)
+     (first item, trailing bytes ignored: listed known finding) *)
+  | PNtC, VStruct [VUInt t; VTagged n (VBytes c); tip] =>
+      match parse_full c with
+      | Ok inner _ =>
+          match dec_wblock inner with
+          | Some (bt, braw) => Some (VStruct [VUInt t; VTagged n (VBytes c); tip; VUInt bt; VBytes braw])
+          | None => None
+          end
+      | _ => None
+      end
+  (* WrappedHeader.UnmarshalCBOR *)
+  | PWHeader, VStruct [VUInt era; VRaw r] =>
+      if era =? 0 then
+        match strip r with
+        | Arr _ [m; tg] =>
+            match dec_byron_meta m, dec_tag_bytes tg with
+            | Some (ty, sz), Some h => Some (VStruct [VUInt era; VUInt ty; VUInt sz; VBytes h])
+            | _, _ => None
+            end
+        | _ => None
+        end
+      else match dec_tag_bytes r with Some h => Some (VStruct [VUInt era; VUInt 0; VUInt 0; VBytes h]) | None => None end
+  | PLens cs, _ => if lens_ok cs v then Some v else None
+  | PPartition, VStruct [t; VList vs] => Some (VStruct [t; VList (partition3 vs)])
+  (* RejectReasonData.UnmarshalCBOR (FIXED, fixes/C04-rejectreason-arity.patch):
+     []any of 1 or 2 elements, type a plain unsigned <= 3, message a text string or nil *)
+  | PRejectReason, VRaw i =>
+      match strip i with
+      | Arr _ [UInt _ t] => if t <=? 3 then Some (VStruct [VUInt t; VText []]) else None
+      | Arr _ [UInt _ t; m] =>
+          if t <=? 3 then
+            if is_nil m then Some (VStruct [VUInt t; VText []]) else
+            match m with
+            | TStr _ bs => Some (VStruct [VUInt t; VText bs])
+            | TStrI cs => Some (VStruct [VUInt t; VText (flat_map snd cs)])
+            | _ => None
+            end
+          else None
+      | _ => None
+      end
+  (* DmqMessagePayload.UnmarshalCBOR: current [body, kes, expires] or legacy
+     [id, body, kes, expires] into one struct *)
+  | PDmqPayload, VStruct [b; k; e] => Some (VStruct [VBytes []; b; k; e])
+  | PDmqPayload, VStruct [id; b; k; e] => Some (VStruct [id; b; k; e])
+  (* DmqMessage.UnmarshalCBOR: current [id, payload, sig, opcert, key] (the id also
+     overwrites the payload's alias) or legacy [payload, sig, opcert, key] (the
+     id is the one inside the payload) *)
+  | PDmq, VStruct [id; VStruct [_; b; k; e]; sg; oc; ck] => Some (VStruct [id; VStruct [id; b; k; e]; sg; oc; ck])
+  | PDmq, VStruct [VStruct [pid; b; k; e]; sg; oc; ck] => Some (VStruct [pid; VStruct [pid; b; k; e]; sg; oc; ck])
+  | _, _ => None
   end.
 
 (* a map key: the library reuses one key variable for all entries, so a
@@ -314,6 +513,16 @@ Section Dec.
                   end) fs xs)
         | _ => None
         end
+    (* a type with a hand-written UnmarshalCBOR is handed the item even when it
+       is null (no zero-value shortcut) *)
+    | SPost p s' => match dec_g s' i with Some v => post_dec p v | None => None end
+    (* cbor.Decode(data, &[]cbor.RawMessage) then a switch on len(elems) *)
+    | SByLen n a b =>
+        match j with
+        | Arr _ xs => if len xs =? n then dec_g a i else dec_g b i
+        | _ => None
+        end
+    | SAlt a b => match dec_g a i with Some v => Some v | None => dec_g b i end
     end.
 End Dec.
 
